@@ -279,6 +279,10 @@ class Prop:
         op = l.split(" ")[0]
         if op == "s" and "##" in l:
             op = "script:" + l.split("## ", 1)[1].split(" ")[0]
+        if op == "getnext":
+            # C15 does not say what GetNextTarget returns (it returns its argument today, findings
+            # O1): a change there breaks the correspondence, not the property
+            return "harmless", why + " [GetNextTarget is outside C15's statement]", "diff:" + op
         return "violation", why, "diff:" + op
 
 
@@ -555,7 +559,7 @@ def check(ctx):
                    [" ".join(t) for t in gen_script_case(ctx.rng("sample2"), 10, cfg)]]
     cov = {
         "evaluations": d.cases, "distinct_nontrivial": len(d.distinct),
-        "rule": "host level: op sequences on the real TargetList/SimpleEntity over 8 objects, 4 names + \"\" + the empty resolvable, whole table compared after every op; "
+        "rule": "non-trivial = at least one accepted operation with an observation, distinct by SHA-1 of the case's lines; host level: op sequences on the real TargetList/SimpleEntity over 8 objects, 4 names + \"\" + the empty resolvable, whole table compared after every op; "
                 "script level: one script per statement in one context (spawn / targetname / remove / $name / .size / [i] / command and thread fan-out with handlers that rename, delete and spawn / field assignment / captured values), "
                 "printed lines + whole table + live objects + counters compared after every statement; plus every host history of the stated depth over 3 objects / 3 names and every script history of the stated depth over a %d-statement alphabet" % nalpha,
         "op_lines": d.lines, "op_histogram": d.hist, "model_answer_kinds": d.outkinds,
